@@ -1577,7 +1577,7 @@ class Group:
                     return False
                 if k in ("cla", "clv") and any(x > max(sg["mx"]) or x < a.lo for x in v):
                     return False
-                if a.placeholder and k == "clt" and any((x < 0) != (y < 0) for x, y in zip(v, self.baked[0][a.name])):
+                if a.placeholder and k == "clt" and any((x < 0) != (y < 0) for x, y in zip(v, (base or self.baked[0])[a.name])):
                     return False
                 if a.placeholder and k in ("cla", "clv") and any(x < 0 for x in v):
                     return False
